@@ -15,6 +15,7 @@ from mc.report import Recorder
 
 PID = "C08"
 LEVEL = "exploration"
+REDUCED = {'quick': 'every third spacing grid, every second annotation set, reduced region list'}
 RULE = ("cases = (wrapper, B, L, #model outputs, #extra args, motif/region/spacing/annotation/product-set configuration, "
         "batch_size, func) enumerated completely over the stated grid; every output entry of every case is compared; "
         "non-trivial = B >= 2 or several shuffles/spacings/annotations/argument rows (index arithmetic exercised)")
